@@ -66,11 +66,9 @@ impl Default for Params {
 
 impl Params {
     fn pbkdf(&self) -> Result<argon2::Argon2<'static>, PasetoError> {
-        let mem = self.mem.get();
-        if !mem.is_multiple_of(1024) {
-            return Err(PasetoError::InvalidKey);
-        }
-        let mem = mem / 1024;
+        // memlimit is in bytes; Argon2 works in KiB blocks and, like libsodium's
+        // crypto_pwhash, rounds a partial block down
+        let mem = self.mem.get() / 1024;
         let mem = u32::try_from(mem).map_err(|_| PasetoError::InvalidKey)?;
 
         // argon2 needs at least 8 KiB per lane; check it here because the argon2 crate
